@@ -127,7 +127,7 @@ impl Check for C24 {
 // ---------------------------------------------------------------------------------------------
 pub struct C25;
 
-fn annotated(p: GenParams, lr: bool) -> BoxedStrategy<GCase> {
+pub fn annotated(p: GenParams, lr: bool) -> BoxedStrategy<GCase> {
     (tape(30..120), tape(60..160))
         .prop_map(move |(gt, tp)| {
             let mut t = Tape { data: &gt, pos: 0 };
